@@ -1,6 +1,6 @@
 """C19 Response transformations (compression, JSONP) are lossless and well labelled."""
-from vf.rt import P, cond, verdict, fail
-from vf.oracles.js import parse_jsonp, JsError
+from vf.rt import P, cond, verdict, fail, untraced
+from vf.oracles.js import parse_jsonp, JsError, surrogates_to_text
 from vf.oracles.refs import ref_wire_text
 from vf.props.common import mk, SIM_STUBS, SIM_OUTSIDE
 from engineio import packet, payload, base_server
@@ -23,15 +23,13 @@ IDX = (0, 7, 233, 1000000000)
 BINS = (b'', b'\x00', b'"\\', b'\xff\xfe\xfd')
 
 
-@cond(quick=dict(S=3, timeout=150), thorough=dict(S=5, timeout=1200))
+@cond(quick=dict(S=1, timeout=150), thorough=dict(S=2, timeout=1500))
 def jsonp_unit(s: str, t: int, ii: int, second: int, bi: int) -> str:
     """
     pre: len(s) <= P.S and 4 <= t <= 5 and 0 <= ii < len(IDX) and 0 <= second <= 2 and 0 <= bi < len(BINS)
     pre: (second == 1 or bi == 0) and (second == 0 or ii == 0)
     post: _ == ''
     """
-    if any(0xd800 <= ord(c) <= 0xdfff for c in s):
-        return ''           # lone surrogates are not Unicode scalar values: they cannot be UTF-8 encoded onto the wire
     pkts = [packet.Packet(t, s)]
     if second == 1:
         pkts.append(packet.Packet(packet.MESSAGE, BINS[bi]))
@@ -46,9 +44,38 @@ def jsonp_unit(s: str, t: int, ii: int, second: int, bi: int) -> str:
             plain, body, e)))
     if idx != IDX[ii]:
         return verdict(fail(PROP, 'JSONP-INDEX', 'index %r != %r' % (idx, IDX[ii])))
-    if val != plain:
+    # (a Python str may hold a high+low surrogate pair as two code points; JavaScript strings are UTF-16, where the
+    # same pair IS the astral character: compare modulo that representation difference)
+    if val != surrogates_to_text(plain):
         return verdict(fail(PROP, 'JSONP-LOSSLESS', 'payload %r -> body %r evaluates to %r' % (plain, body, val)))
     return verdict('')
+
+
+JS_TEXTS = ('', 'abc', '"', '\\', '\\"', '"\\', 'a\\"b', '\\\\', '\n', '\r\n', '\\n', '  ', '\x00\x1f\x7f', '\U0001f600', "'",
+            '");alert(1);("', '\\u0041', '\\x41', '</script>', '\x1e', '\\\n', 'b"\\', '%22', '\\' * 5 + '"' * 3)
+
+
+@cond(quick=dict(K2=6, timeout=150), thorough=dict(K2=23, timeout=900))
+def jsonp_table(k: int, k2: int, ii: int, binary: int) -> str:
+    """
+    pre: 0 <= k < len(JS_TEXTS) and 0 <= k2 <= P.K2 and ii == 1 and binary == 2
+    post: _ == ''
+    """
+    # multi-character interactions (backslash next to quote, escape look-alikes, script-injection shapes)
+    return verdict(untraced(_jsonp_table, k, k2, ii, binary))
+
+
+def _jsonp_table(k, k2, ii, binary):
+    pkts = [(4, JS_TEXTS[k]), (4, JS_TEXTS[k2]), (4, BINS[binary])]
+    plain = '\x1e'.join(ref_wire_text(t, d) for t, d in pkts)
+    body = payload.Payload(packets=[packet.Packet(t, d) for t, d in pkts]).encode(jsonp_index=IDX[ii])
+    try:
+        idx, val = parse_jsonp(body)
+    except JsError as e:
+        return fail(PROP, 'JSONP-STATEMENT', 'payload %r -> body %r: %s' % (plain, body, e))
+    if idx != IDX[ii] or val != plain:
+        return fail(PROP, 'JSONP-LOSSLESS', 'payload %r -> body %r evaluates to %r (index %r)' % (plain, body, val, idx))
+    return ''
 
 
 ACCEPT = (None, 'gzip', 'deflate', 'gzip, deflate', 'deflate,gzip', 'br, gzip;q=0.5', 'identity', ' gzip ', 'br', '*', '')
